@@ -204,6 +204,8 @@ def check_scool(case, ctx: Ctx):
                 check("gc" in b.columns and np.array_equal(b["gc"].to_numpy(), base_extra["gc"]), f"cell {nm!r}: extra bin column lost")
             if case["metadata"]:
                 check(clr.info["metadata"] == case["metadata"], "cell metadata differs")
+            else:
+                check(clr.info["metadata"] == {}, lambda: f"cell {nm!r} created without metadata reports {clr.info['metadata']!r}")
         # history: a bin column is stored in ONE cell afterwards (what balancing a cell does); per-cell columns stay per cell
         if len(cells) >= 2:
             first = sorted(cells)[0]
